@@ -254,7 +254,7 @@ def verify_unit(unit, digit, mode, canary=False, use_cache=True):
     text, linemap = g.render(unit, canary=canary)
     # second-level cache keyed by the generated text: a change in /repo that does not reach this
     # unit's generated file (its own bodies and the signatures/contracts of its stubs) re-uses the result
-    chash = sha(text, json.dumps(g.problems, default=str), machinery_hash())
+    chash = sha(text, json.dumps(g.problems, default=str), open(os.path.abspath(__file__), 'rb').read())
     cdir2 = os.path.join(BUILD, 'cache', 'by_content')
     os.makedirs(cdir2, exist_ok=True)
     cpath2 = os.path.join(cdir2, f'{tag}_{chash[:24]}.json')
